@@ -178,7 +178,7 @@ var clientRelevant = map[string]map[string]bool{
 	"C08": set("client_preloaded_with_300_to_70000_commands", "unsolicited_record_skipped_inside_call", "eagain_x9_then_success", "eintr_run_inside_call", "kernel_errno_reported",
 		"semantic_errno_from_kernel_state", "stale_reply_refused", "call_judged_in_relaxed_mode", "reply_delayed_exactly_450ms", "getrules_with_2plus_rules",
 		"deleterules_stopped_at_failure", "event_between_ack_and_data", "getrules_buffer_overwritten_later", "sendto_failed", "kernel_immutable",
-		"getstatus_result_checked_again_at_end", "forged_reply_queued_ahead_of_the_kernels", "ack_datagram_truncated", "ack_of_20_to_35_bytes_errno_without_echo", "receive_failed_with_enobufs_inside_call", "sequence_counter_started_next_to_wrap",
+		"getstatus_result_checked_again_at_end", "forged_reply_queued_ahead_of_the_kernels", "ack_datagram_truncated", "ack_of_20_to_35_bytes_errno_without_echo", "sequence_0_nlmsg_error_read_inside_call", "receive_failed_with_enobufs_inside_call", "sequence_counter_started_next_to_wrap",
 		"verdict_left_unread_by_a_failed_call", "status_reply_ahead_of_its_ack", "error_ack_echoing_a_request_of_8900_bytes_or_more", "refusal_with_a_netlink_type_other_than_error",
 		"injected_errno", "unsolicited_records", "stale_reply", "delayed_reply", "recv_eintr", "recv_eagain_injected", "recv_eagain_natural", "sendto_errno", "spoofed_datagram", "truncated_or_padded_reply"),
 	"C16": set("client_preloaded_with_300_to_70000_commands", "status_reply_shorter_than_32", "status_reply_longer_than_44", "fromwire_short_buffer", "fromwire_partial_word",
@@ -189,7 +189,7 @@ var clientRelevant = map[string]map[string]bool{
 		"second_close_blocked_in_once", "close_cleared_pid", "getrules_with_2plus_rules", "getrules_buffer_overwritten_later", "unsolicited_record_skipped_inside_call",
 		"eagain_x9_then_success", "eintr_run_inside_call", "kernel_errno_reported", "semantic_errno_from_kernel_state", "sendto_failed", "kernel_immutable",
 		"event_between_ack_and_data", "getstatus_result_checked_again_at_end", "socket_close_reported_an_error", "sequence_counter_started_next_to_wrap",
-		"more_than_16_nowait_requests_outstanding", "ack_delayed_past_a_whole_waitforpendingacks_call", "receive_failed_with_enobufs_inside_call", "delayed_reply", "recv_eagain_natural", "refusal_with_a_netlink_type_other_than_error", "truncated_or_padded_reply", "ack_of_20_to_35_bytes_errno_without_echo",
+		"more_than_16_nowait_requests_outstanding", "ack_delayed_past_a_whole_waitforpendingacks_call", "receive_failed_with_enobufs_inside_call", "delayed_reply", "recv_eagain_natural", "refusal_with_a_netlink_type_other_than_error", "truncated_or_padded_reply", "ack_of_20_to_35_bytes_errno_without_echo", "sequence_0_nlmsg_error_read_inside_call",
 		"injected_errno", "unsolicited_records", "recv_eintr", "recv_eagain_injected", "sendto_errno", "concurrent_close_tasks"),
 	"C18": set("client_preloaded_with_300_to_70000_commands", "porcupine_histories_checked", "receive_foreign_port_id", "receive_foreign_port_id_with_group_mask", "receive_foreign_port_id_2^31_or_more",
 		"receive_non_netlink_address", "receive_short_datagram", "short_after_long_datagram", "send_payload_8970", "send_with_caller_pid", "sends_overlapped_in_time",
